@@ -121,7 +121,8 @@ def coverage_record(spec, hists):
     for o in ops:
         if o["op"] == "call":
             conts[o.get("cont", "nd")] = conts.get(o.get("cont", "nd"), 0) + 1
-    return {"sig": sig, "nontrivial": bool(max_live >= 2 and adj_same_module >= 1), "max_live": max_live,
+    fams_used = sorted({o.get("fam") for o in ops if o.get("fam")})
+    return {"sig": sig, "nontrivial": bool(max_live >= 2 and adj_same_module >= 1), "max_live": max_live, "families": fams_used,
             "fam_pairs": sorted(fam_pairs), "pset_pairs": sorted(pset_pairs), "op_kinds": kinds, "fired": fired,
             "fired_where": fired_where, "classes": classes, "containers": conts, "n_ops": len(ops),
             "run_faults": sorted(spec.get("run", {}).keys())}
